@@ -50,8 +50,14 @@ def lp_spec(rng, maxlen=40, zero_prob=0.12, klass=None):
 def phases(rng, n, pattern=None):
     """n phases (python floats)"""
     if pattern is None:
-        pattern = rng.choice(["generic", "generic", "equal", "alternating", "extreme", "ends", "small"])
-    if pattern == "generic":
+        pattern = rng.choice(["generic", "generic", "equal", "alternating", "extreme", "ends", "small", "near-special"])
+    if pattern == "near-special":
+        # close to, but not at, the quarter and half turns: within 1e-10 .. 1e-4 (arbitrary real phases include these)
+        v = rng.choice([0.0, math.pi / 2, -math.pi / 2, math.pi, -math.pi, 2 * math.pi], size=n) + rng.choice([-1.0, 1.0], size=n) * 10.0 ** rng.uniform(-10, -4, size=n)
+        if n > 2 and rng.random() < 0.5:
+            keep = rng.random(n) < 0.5
+            v = np.where(keep, v, rng.uniform(-math.pi, math.pi, size=n))
+    elif pattern == "generic":
         v = rng.uniform(-math.pi, math.pi, size=n)
     elif pattern == "equal":
         v = np.full(n, rng.uniform(-math.pi, math.pi))
